@@ -252,6 +252,14 @@ ldb_verif_atomic_event(const volatile void *object, int kind, int order, long va
       VP_ASSERT(VP_GE_ACQUIRE(order), "C10.c(iii) reader next-pointer loads are acquire (mid-insert reader)");
     return;
   }
+#ifdef VP_CHEAPREAD
+  if (vp_phase == VP_PH_READ) {
+    VP_ASSERT(kind == 0, "C10.c(iii) a reader performs no atomic store");
+    if (object == (const volatile void *)&vp_list.max_height) vp_mh_loads++;
+    else { vp_slot_loads++; VP_ASSERT(VP_GE_ACQUIRE(order), "C10.c(iii) reader next-pointer loads are acquire"); }
+    return;
+  }
+#endif
   vp_busy = 1;
   vp_events++;
 
